@@ -164,6 +164,14 @@ class AsyncSocket(base_socket.BaseSocket):
 
         if self.connected:
             # the socket was already connected, so this is an upgrade
+            if self._upgrade_attempt:
+                # another WebSocket is in the middle of the handshake (or
+                # has completed it): only one can carry the session
+                self.server.logger.info(
+                    '%s: Refused websocket upgrade, another one is in '
+                    'progress', self.sid)
+                return
+            self._upgrade_attempt = True
             self.upgrading = True  # hold packet sends during the upgrade
 
             try:
@@ -199,6 +207,9 @@ class AsyncSocket(base_socket.BaseSocket):
                 # however the handshake ends (including an oversize or
                 # undecodable frame or a closed socket), resume polling
                 self.upgrading = False
+                if not self.upgraded:
+                    # a failed attempt does not stand in the way of the next
+                    self._upgrade_attempt = False
         else:
             self.connected = True
             self.upgraded = True
